@@ -604,6 +604,14 @@ class Plan:
                     c["ename"] = nm
                     cases.append(c)
                 self.add_group("C16", cases, "contexts")
+                # the iterator structs under user-chosen names that equal a trait the generated bodies import
+                if "range" in dict(cfg["feats"]) or lab == "inline":
+                    cases = [self.new_case(r, vs, cfg, script, f"sname:{lab}:default")]
+                    for nm in ("Iterator", "IntoIterator", "DoubleEndedIterator", "FusedIterator", "Option", "From"):
+                        feats = [(f, dict(pr, **({"struct_name": nm} if f == "iter" else {"struct_name": nm + "2"} if f == "names" else {})))
+                                 for f, pr in cfg["feats"]]
+                        cases.append(self.new_case(r, vs, {"feats": feats, "split": cfg.get("split", "one")}, script, f"sname:{lab}:{nm}"))
+                    self.add_group("C16", cases, "contexts")
 
     # -- E2: hostile scopes on TLC shapes with many runs (C16)
     def contexts_on_shapes(self, reprs, per_repr):
